@@ -616,6 +616,19 @@ func (r *collection) addService(service any, lifetime Lifetime, opts ...AddOptio
 		// Register each field as a separate service that points to the same constructor
 		outputs := make([]*Descriptor, 0, len(descriptor.resultFields))
 		for _, field := range descriptor.resultFields {
+			// A field is a keyed service or a group member, never both (the rule
+			// Descriptor.Validate applies to every other registration)
+			if field.Key != nil && field.Group != "" {
+				return &RegistrationError{
+					ServiceType: field.Type,
+					Operation:   "register result object field",
+					Cause: &ValidationError{
+						ServiceType: field.Type,
+						Cause:       fmt.Errorf("descriptor cannot have both key and group set"),
+					},
+				}
+			}
+
 			// Create a descriptor for each field type
 			fieldDescriptor := &Descriptor{
 				Type:            field.Type,
